@@ -58,7 +58,7 @@ def write_tree(root, files):
     for rel, text in files.items():
         p = os.path.join(root, rel)
         os.makedirs(os.path.dirname(p), exist_ok=True)
-        with open(p, 'w', newline='') as f:
+        with open(p, 'w', newline='', encoding='utf-8') as f:
             f.write(text)
 
 
@@ -70,7 +70,7 @@ def read_tree(root):
         for f in fs:
             if f.endswith(('.py', '.pyi')):
                 p = os.path.join(d, f)
-                with open(p, newline='') as fh:
+                with open(p, newline='', encoding='utf-8') as fh:
                     out[os.path.relpath(p, root)] = fh.read()
     return out
 
@@ -100,7 +100,7 @@ def materialise(refactoring, root, dest):
     """Build the renamed tree in `dest` from get_changed_files()/get_renames(), without apply()."""
     shutil.copytree(root, dest)
     for p, cf in refactoring.get_changed_files().items():
-        with open(os.path.join(dest, os.path.relpath(str(p), root)), 'w', newline='') as f:
+        with open(os.path.join(dest, os.path.relpath(str(p), root)), 'w', newline='', encoding='utf-8') as f:
             f.write(cf.get_new_code())
     renames = []
     for a, b in refactoring.get_renames():
